@@ -451,6 +451,7 @@ const RR: u8 = b'r'; // \x0D
 const QU: u8 = b'"'; // \x22
 const BS: u8 = b'\\'; // \x5C
 const UU: u8 = b'u'; // \x00...\x1F except the ones above, and \x7F
+const C1: u8 = b'c'; // \xC2: lead byte of U+0080...U+00BF, of which U+0080...U+009F are control characters
 const __: u8 = 0;
 
 // Lookup table of escape sequences. A value of b'x' at index i means that byte
@@ -469,7 +470,7 @@ static ESCAPE: [u8; 256] = [
 	__, __, __, __, __, __, __, __, __, __, __, __, __, __, __, __, // 9
 	__, __, __, __, __, __, __, __, __, __, __, __, __, __, __, __, // A
 	__, __, __, __, __, __, __, __, __, __, __, __, __, __, __, __, // B
-	__, __, __, __, __, __, __, __, __, __, __, __, __, __, __, __, // C
+	__, __, C1, __, __, __, __, __, __, __, __, __, __, __, __, __, // C
 	__, __, __, __, __, __, __, __, __, __, __, __, __, __, __, __, // D
 	__, __, __, __, __, __, __, __, __, __, __, __, __, __, __, __, // E
 	__, __, __, __, __, __, __, __, __, __, __, __, __, __, __, __, // F
@@ -492,6 +493,12 @@ pub fn escape_string_json_buf(value: &str, buf: &mut String) {
 		if escape == __ {
 			continue;
 		}
+		if escape == C1 {
+			// Two-byte sequence, only U+0080...U+009F need escaping (as \u0080...\u009f)
+			if !matches!(bytes.get(i + 1), Some(0x80..=0x9F)) {
+				continue;
+			}
+		}
 
 		if start < i {
 			buf.extend_from_slice(&bytes[start..i]);
@@ -501,6 +508,20 @@ pub fn escape_string_json_buf(value: &str, buf: &mut String) {
 		match escape {
 			self::BB | self::TT | self::NN | self::FF | self::RR | self::QU | self::BS => {
 				buf.extend_from_slice(&[b'\\', escape]);
+			}
+			self::C1 => {
+				static HEX_DIGITS: [u8; 16] = *b"0123456789abcdef";
+				let code = bytes[i + 1];
+				buf.extend_from_slice(&[
+					b'\\',
+					b'u',
+					b'0',
+					b'0',
+					HEX_DIGITS[(code >> 4) as usize],
+					HEX_DIGITS[(code & 0xF) as usize],
+				]);
+				// The continuation byte is consumed as well
+				start = i + 2;
 			}
 			self::UU => {
 				static HEX_DIGITS: [u8; 16] = *b"0123456789abcdef";
